@@ -918,7 +918,12 @@ func init() {
 				e.fail("goconv: second argument must be a type name string")
 			}
 			var t types.Type
-			if e.fr != nil && e.fr.fn != nil {
+			if tt, bound := e.x.tsubst[strings.TrimSpace(s.V)]; bound {
+				// the binding of the contract's owner (set while a callee's contract is evaluated
+				// at a call site) wins over the frame's own type parameters
+				t = tt
+			}
+			if t == nil && e.fr != nil && e.fr.fn != nil {
 				// loop invariants and hints are evaluated outside withTypeArgs: resolve the type
 				// parameters of the function at hand directly
 				if o := e.fr.fn.Origin(); o != nil && o.TypeParams() != nil {
